@@ -86,11 +86,13 @@ func runC12Auth(in sx.V, c12AuthD time.Duration) (result sx.V, slow bool) {
 	nq := func() int { srv.mu.Lock(); defer srv.mu.Unlock(); return srv.nq }
 	n := 0
 	// one call under a caller deadline of an hour; answer (if any) built from the query
+	size := 0
 	call := func(m int, answer bool) sx.V {
 		n++
 		ctx, cancel := context.WithTimeout(context.Background(), time.Hour)
 		defer cancel()
 		before := nq()
+		undec := srv.undecodable.Load()
 		done := make(chan struct{})
 		var cerr error
 		okRes := false
@@ -104,6 +106,11 @@ func runC12Auth(in sx.V, c12AuthD time.Duration) (result sx.V, slow bool) {
 			case 2:
 				cerr = cl.WaitMasterchainSeqno(ctx, 5, 100)
 				okRes = cerr == nil
+			case 3: // a raw query of exactly `size` bytes, answered with as many bytes derived from it
+				q := c12Stream([]byte(fmt.Sprintf("query %d %d", n, size)), size)
+				res, err := cl.Request(ctx, q)
+				d := sha256.Sum256(q)
+				cerr, okRes = err, err == nil && string(res) == string(c12Stream(d[:], size))
 			default:
 				key := make([]byte, 16)
 				copy(key, fmt.Sprintf("auth%012d", n))
@@ -140,6 +147,9 @@ func runC12Auth(in sx.V, c12AuthD time.Duration) (result sx.V, slow bool) {
 				data = binary.LittleEndian.AppendUint32(binary.LittleEndian.AppendUint32(nil, 0xe953000d), uint32(0x5eed0000+n))
 			case 2: // liteServer.error code:int message:string, code 0
 				data = append(binary.LittleEndian.AppendUint32(binary.LittleEndian.AppendUint32(nil, 0xbba9e148), 0), 0, 0, 0, 0)
+			case 3:
+				d := sha256.Sum256(raw)
+				data = c12Stream(d[:], len(raw))
 			default:
 				sum := sha256.Sum256(raw[:16])
 				data = sum[:]
@@ -153,6 +163,8 @@ func runC12Auth(in sx.V, c12AuthD time.Duration) (result sx.V, slow bool) {
 		}
 		dur := time.Since(start)
 		switch {
+		case srv.undecodable.Load() > undec:
+			return sx.A("query-undecodable") // the server could not read the query: no answer for it
 		case cerr == nil && okRes:
 			return sx.L(sx.A("ok"), sx.N(0))
 		case cerr == nil:
@@ -187,6 +199,9 @@ func runC12Auth(in sx.V, c12AuthD time.Duration) (result sx.V, slow bool) {
 		switch a.Head() {
 		case "call":
 			outs = append(outs, call(a.List[1].I(), true))
+		case "sized":
+			size = a.List[1].I()
+			outs = append(outs, call(3, true))
 		case "silent":
 			outs = append(outs, call(0, false))
 		case "drop":
@@ -361,4 +376,39 @@ func c12GenAuth(r *prng.R, n int) sx.V {
 		a = 1
 	}
 	return sx.L(sx.Nat(nconn), sx.N(a), sx.L(acts...))
+}
+
+// c12Stream expands a seed to n bytes (SHA-256 in counter mode)
+func c12Stream(seed []byte, n int) []byte {
+	out := make([]byte, 0, n+32)
+	for ctr := uint32(0); len(out) < n; ctr++ {
+		h := sha256.Sum256(binary.LittleEndian.AppendUint32(append([]byte{}, seed...), ctr))
+		out = append(out, h[:]...)
+	}
+	return out[:n]
+}
+
+// query (and answer) sizes around every boundary of the length prefix and of the framing
+var c12Sizes4 = []int{0, 1, 2, 3, 4, 5, 6, 7, 8, 250, 251, 252, 253, 254, 255, 256, 257, 258, 259, 260, 1000, 4095, 4096, 4097, 65535, 65536, 65537}
+
+func c12GenSizes(r *prng.R, n int, thorough bool) sx.V {
+	nconn := 1 + n%2
+	var acts []sx.V
+	if n == 0 || thorough && n%5 == 0 {
+		for _, sz := range c12Sizes4 {
+			acts = append(acts, c12Op("sized", uint64(sz)))
+		}
+		if thorough {
+			acts = append(acts, c12Op("sized", 1<<20), c12Op("sized", (8<<20)-256))
+		}
+	} else {
+		for k := 8 + r.Intn(8); k > 0; k-- {
+			sz := c12Sizes4[r.Intn(len(c12Sizes4))]
+			if r.Chance(30) {
+				sz = r.Intn(70000)
+			}
+			acts = append(acts, c12Op("sized", uint64(sz)))
+		}
+	}
+	return sx.L(sx.Nat(nconn), sx.N(uint64(n%2)), sx.L(acts...))
 }
